@@ -415,6 +415,7 @@ def wl_bar(ctx, rng, case_no):
     begin = rng.uniform(0, size)
     end = rng.uniform(begin, size) if rng.random() < 0.85 else rng.uniform(0, size)
     bw = rng.choice([None, None, 1, 5, 20, 300])
+    boundary = rng.random() < 0.4       # begin / end placed around eighth-of-a-cell boundaries of the rendered width
     total = rng.choice([100, 1, 0, 7.5, 10 ** 9])
     completed = rng.choice([0, total, total / 2 if total else 0, -1, total + 5, total * rng.random()])
     pulse = rng.random() < 0.25
@@ -423,10 +424,15 @@ def wl_bar(ctx, rng, case_no):
         no_color = rng.random() < 0.2
         console = consoles.layout_console(W, legacy=rng.random() < 0.1, ascii_only=rng.random() < 0.1,
                                           color_system=cs, no_color=no_color)
+        if boundary:
+            wcells = min(bw or W, W)
+            k = rng.randrange(0, 8 * wcells + 1)
+            begin = size * (k + rng.choice([0, 0.01, 0.49, 0.5, 0.51, 0.99])) / (8 * wcells)
+            end = min(size, begin + size * rng.choice([0, 0.001, 0.01, 0.1, 0.5, 1, 7.99, 8]) / (8 * wcells))
         ctx.count("mon.bar")
         g = grid(console, Bar(size, begin, end, width=bw))
         want = min(bw or W, W)
-        wit = {"bar": [size, begin, end, bw], "width": W, "lines": [gtext(l) for l in g]}
+        wit = {"bar": [size, begin, end, bw], "width": W, "lines": [gtext(l) for l in g], "eighth_boundary_case": boundary}
         if len(g) != 1 or gwidth(g[0]) != want:
             ctx.violation("bar-width-wrong", dict(wit, want=want, got=[gwidth(l) for l in g]))
         ctx.count("mon.pbar")
